@@ -717,6 +717,8 @@ def main():
              "same_sample_count": sum(1 for q in seqs if sum(b[0] for b in q[1]) == sum(b[0] for b in q[3])),
              "by_route": {"update_from_dict": n_update, "load_state": n_file}, "oracle_model": mods[0][0]}
     tmp = tlc.scratch_dir("c04s_")
+    import time
+    t_reuse = time.time()
     try:
         with ctx.Pool(nprocs) as pool:     # forked now: the workers inherit TABLE
             step = max(1, len(seqs) // (4 * nprocs))
@@ -727,6 +729,8 @@ def main():
                     ck.violation(key, what, rp)
                 if nvio > len(vio):
                     ck.violations += nvio - len(vio)
+        reuse["statemanager_wall_s"] = round(time.time() - t_reuse, 2)
+        t_reuse = time.time()
         sam_out, sam_info = [], {"runs": 0}
         for k in range(1 if ck.tier == "quick" else 4):
             d = os.path.join(tmp, f"sampler{k}")
@@ -740,6 +744,7 @@ def main():
             ck.violation(key, what, rp)
     finally:
         shutil.rmtree(tmp, ignore_errors=True)
+    reuse["sampler_wall_s"] = round(time.time() - t_reuse, 2)
     reuse["sampler_level"] = sam_info
     reuse["tlc_model"] = {"constants": REUSE_MODEL, "distinct_states": reuse_res.distinct, "generated": reuse_res.generated,
                           "tlc_coverage": {k: list(v) for k, v in reuse_res.coverage.items()}}
